@@ -193,3 +193,63 @@ def sub_view(n, nodes, alive, edges, entry):
     for (a, b, _k) in sub_edges:
         rows[a] |= 1 << b
     return [nodes[x] for x in alive], rows, sub_edges, pos[entry]
+
+
+# ---------------------------------------------------------------------------------------------------------------
+# long-chain / big-fan families (size-gated code paths), see gen.graphs.long_cases
+def recursion_limit():
+    import sys
+    import androguard.decompiler        # noqa  (sets the interpreter limit the decompiler runs under)
+    return sys.getrecursionlimit()
+
+
+def build_long(case, nodes_cache):
+    """Real Graph for one long_cases descriptor.  Returns (g, nodes, edges, core_n, core_edges, core_off, want_idoms_fn).
+    The L fan leaves are linked by filling Graph.edges / reverse_edges directly (as the project's own tests do):
+    Graph.add_edge is quadratic in the out-degree."""
+    from gen import graphs as G
+    k, ce = case["k"], [tuple(e) for e in case["core"]]
+    if case["kind"] == "chain":
+        lc = G.long_chain(k, ce, case["mode"], case["L"], case["diamond"])
+        n = lc["n"]
+        nodes = _nodes(n, nodes_cache)
+        g = build(nodes, lc["edges"])
+        return g, nodes, lc["edges"], lc
+    L = case["L"]
+    n = k + L
+    nodes = _nodes(n, nodes_cache)
+    leaves = nodes[k:]
+    if case["first"]:
+        g = build(nodes, [])
+        g.edges[nodes[0]].extend(leaves)
+        for lf in leaves:
+            g.reverse_edges[lf].append(nodes[0])
+        for (u, v) in ce:
+            g.add_edge(nodes[u], nodes[v])
+        edges = [(0, k + i) for i in range(L)] + ce
+    else:
+        g = build(nodes, ce)
+        g.edges[nodes[0]].extend(leaves)
+        for lf in leaves:
+            g.reverse_edges[lf].append(nodes[0])
+        edges = ce + [(0, k + i) for i in range(L)]
+    lc = {"n": n, "edges": edges, "K": k, "core_edges": ce, "core_off": 0, "chain_off": k, "mode": "fan", "L": L}
+    return g, nodes, edges, lc
+
+
+def _nodes(n, cache):
+    have = cache.get("nodes", [])
+    if len(have) < n:
+        have = make_nodes(n)
+        cache["nodes"] = have
+    return have[:n]
+
+
+def long_idoms(lc, core_idoms):
+    from gen import graphs as G
+    if lc["mode"] != "fan":
+        return G.long_chain_idoms(lc, core_idoms)
+    want = dict(core_idoms)
+    for i in range(lc["L"]):
+        want[lc["chain_off"] + i] = 0
+    return want
